@@ -78,6 +78,9 @@ struct SWorld {
     hay2: String,
     script: Vec<SOp>,
     fuel: u64,
+    /// big-haystack worlds: only the scripted calls are made, the ends are not drained
+    /// (a full backward drain rescans from 0 for every step)
+    no_drain: bool,
 }
 
 impl SWorld {
@@ -88,6 +91,7 @@ impl SWorld {
             .set("haystack", J::s(&self.hay))
             .set("haystack2", J::s(&self.hay2))
             .set("fuel", J::u(self.fuel))
+            .set("no_drain", J::Bool(self.no_drain))
             .set("script", J::Arr(self.script.iter().map(|o| J::s(&o.name())).collect()))
     }
     fn from_json(j: &J) -> Result<SWorld, String> {
@@ -102,6 +106,7 @@ impl SWorld {
             hay2: j.get("haystack2").and_then(|v| v.as_str()).unwrap_or("").to_string(),
             script,
             fuel: j.get("fuel").and_then(|v| v.as_u64()).unwrap_or(50_000),
+            no_drain: j.get("no_drain").and_then(|v| v.as_bool()).unwrap_or(false),
         })
     }
     fn hash(&self) -> u64 {
@@ -117,6 +122,40 @@ fn gen_sworld(base: u64, run: u64) -> SWorld {
     let mut sc = Rng::stream(root, 2);
     let cp = corpus();
     let (flags, pattern) = if wl.chance(1, 3) { gen_pattern(&mut wl, false) } else { cp[wl.usize_below(cp.len())].clone() };
+    // 1 in 2500 worlds: a big haystack (17-40 KB) - size thresholds such as tail windows
+    if sc.chance(1, 2500) {
+        let toks0 = simcore::gen::literal_tokens(&[pattern.as_str()], false);
+        let toks: Vec<String> = if toks0.is_empty() { vec!["ab".into(), "12".into(), "\"x\"".into(), "aa".into()] } else { toks0 };
+        let fillers = ['x', ' ', '.', '1', 'a', '\n', 'é'];
+        let fill = fillers[wl.usize_below(fillers.len())];
+        let target = wl.range(17_000, 40_000) as usize;
+        let dense = wl.chance(1, 2);
+        let mut hay = String::with_capacity(target + 64);
+        while hay.len() < target {
+            hay.push_str(&toks[wl.usize_below(toks.len())]);
+            let gap = if dense {
+                wl.below(4) as usize
+            } else {
+                let k = wl.range(4, 13);
+                (1usize << k).saturating_sub(wl.below(6) as usize)
+            };
+            for _ in 0..gap {
+                hay.push(fill);
+            }
+        }
+        let mut script = Vec::new();
+        for _ in 0..sc.range(1, 5) {
+            script.push(match sc.below(8) {
+                0..=3 => SOp::NextBack,
+                4 => SOp::Next,
+                5 => SOp::Consumer("rfind".into()),
+                6 => SOp::Consumer("ends_with".into()),
+                _ => SOp::NextMatchBack,
+            });
+        }
+        script.push(SOp::Consumer(["rfind", "find", "strip_suffix", "trim_end_matches"][sc.usize_below(4)].to_string()));
+        return SWorld { pattern, flags, hay, hay2: String::new(), script, fuel: 6_000_000, no_drain: true };
+    }
     // haystack from the pattern's alphabet plus multi-byte characters
     let mut alpha: Vec<char> = pattern.chars().filter(|c| c.is_alphanumeric() || *c == ' ').collect();
     alpha.extend(alpha.clone());
@@ -187,7 +226,7 @@ fn gen_sworld(base: u64, run: u64) -> SWorld {
     for _ in 0..sc.range(1, 4) {
         script.push(SOp::Consumer(CONSUMERS[sc.usize_below(CONSUMERS.len())].to_string()));
     }
-    SWorld { pattern, flags, hay, hay2, script, fuel: 50_000 }
+    SWorld { pattern, flags, hay, hay2, script, fuel: 50_000, no_drain: false }
 }
 
 // ------------------------------------------------------------------ execution + oracle
@@ -220,12 +259,14 @@ struct DirState {
     matches: Vec<(usize, usize)>,
     /// a skip-to-reject may have jumped over matches: the match list has holes
     holes: bool,
+    /// the stream was run dry inside a provided method: its final frontier is unknown
+    unknown_tail: bool,
     log: Vec<Obs>,
 }
 
 impl DirState {
     fn new(forward: bool, len: usize) -> DirState {
-        DirState { forward, frontier: if forward { 0 } else { len }, done: false, steps: 0, calls: 0, matches: Vec::new(), holes: false, log: Vec::new() }
+        DirState { forward, frontier: if forward { 0 } else { len }, done: false, steps: 0, calls: 0, matches: Vec::new(), holes: false, unknown_tail: false, log: Vec::new() }
     }
 
     fn observe(&mut self, hay: &str, o: Obs) -> Option<(String, String)> {
@@ -240,10 +281,12 @@ impl DirState {
             }
             Obs::SkipDone => {
                 // the provided method consumed the rest of the stream; the skipped steps are
-                // not observable, so the rest counts as covered
+                // not observable: the stream went on to the far end, or to wherever it met the
+                // other end - how far is unknown
                 self.done = true;
-                self.frontier = if self.forward { len } else { 0 };
+                self.unknown_tail = true;
                 self.holes = true;
+                let _ = len;
                 return None;
             }
             Obs::Match(a, b) => (a, b, true, false),
@@ -302,6 +345,7 @@ struct SExec {
     consumers: usize,
     rebuilds: usize,
     sibling_steps: usize,
+    big_worlds: usize,
     sim_steps: u64,
     outcome_hash: u64,
 }
@@ -451,16 +495,18 @@ fn run_consumer(name: &str, re: &Regex, h: &str, f: &[(usize, usize)]) -> Option
         // reverse forms: the property does not fix which matches a reverse search reports, so
         // only consistency (a reported piece is a real match / pieces reassemble) is checked
         "rfind" => {
-            if let Some(a) = h.rfind(re) {
-                if !h.is_char_boundary(a) || re.find_from(h, a).next().map(|m| m.start()) != Some(a) {
-                    return fail("an offset where the regex matches".into(), format!("{}", a));
-                }
-            } else if !f.is_empty() {
-                return fail("Some(_) (the regex matches somewhere)".into(), "None".into());
+            let got = h.rfind(re);
+            let exp = f.last().map(|m| m.0);
+            if got != exp {
+                return fail(format!("{:?} (start of the last find_iter match)", exp), format!("{:?}", got));
             }
         }
         "rmatches" | "rmatch_indices" => {
             let got: Vec<(usize, &str)> = h.rmatch_indices(re).collect();
+            let exp: Vec<(usize, &str)> = f.iter().rev().map(|m| (m.0, &h[m.0..m.1])).collect();
+            if got != exp {
+                return fail(format!("{:?} (find_iter matches, last to first)", &exp[..exp.len().min(6)]), format!("{:?}", &got[..got.len().min(6)]));
+            }
             let mut prev = h.len() + 1;
             for (a, s) in &got {
                 if a + s.len() > prev.min(h.len()) && prev <= h.len() {
@@ -540,12 +586,24 @@ fn finish_searcher(w: &SWorld, f: &[(usize, usize)], fw: &DirState, bw: &DirStat
             viols.push(SViol { clause: "M-forward-matches!=find_iter".into(), detail: format!("forward Match steps {:?} vs find_iter {:?} (stream Done)", fw.matches, f), op });
         }
     }
-    // backward Match steps must at least be places where the regex matches
-    // (checked by the caller, needs the regex)
+    // (R) backward Match steps are the find_iter matches taken last to first. The property
+    // text only says the reverse forms are "correct"; the reference adopted here is the
+    // implementation's own stated intent (find_last_match_before: "find all matches up to the
+    // given position and return the last one"), which is also what makes rmatches the
+    // reverse of matches. A redesign to true right-to-left matching would have to revisit
+    // this clause; until then a reverse stream that depends on haystack size or window
+    // alignment is reported.
+    if !bw.matches.is_empty() {
+        let rev: Vec<(usize, usize)> = f.iter().rev().cloned().collect();
+        let ok = if bw.holes { is_subsequence(&bw.matches, &rev) } else { rev.starts_with(&bw.matches) };
+        if !ok {
+            viols.push(SViol { clause: "R-backward-matches!=reversed-find_iter".into(), detail: format!("backward Match steps {:?} vs find_iter reversed {:?}", &bw.matches[..bw.matches.len().min(6)], &rev[..rev.len().min(6)]), op });
+        }
+    }
     if drained && fw.done && bw.done {
         // coverage: two independent full tilings, or the two ends met exactly
-        let independent = fw.frontier == len && bw.frontier == 0;
-        let met = fw.frontier == bw.frontier;
+        let independent = (fw.frontier == len || fw.unknown_tail) && (bw.frontier == 0 || bw.unknown_tail);
+        let met = if !fw.unknown_tail && !bw.unknown_tail { fw.frontier == bw.frontier } else { bw.frontier >= fw.frontier };
         if !(independent || met) {
             viols.push(SViol {
                 clause: "T-incomplete-coverage".into(),
@@ -553,9 +611,9 @@ fn finish_searcher(w: &SWorld, f: &[(usize, usize)], fw: &DirState, bw: &DirStat
                 op,
             });
         }
-    } else if fw.done && bw.calls == 0 && fw.frontier != len {
+    } else if fw.done && bw.calls == 0 && fw.frontier != len && !fw.unknown_tail {
         viols.push(SViol { clause: "T-forward-incomplete".into(), detail: format!("Done with only 0..{} of 0..{} covered", fw.frontier, len), op });
-    } else if bw.done && fw.calls == 0 && bw.frontier != 0 {
+    } else if bw.done && fw.calls == 0 && bw.frontier != 0 && !bw.unknown_tail {
         viols.push(SViol { clause: "T-backward-incomplete".into(), detail: format!("Done with only {}..{} covered", bw.frontier, len), op });
     }
 }
@@ -576,6 +634,7 @@ fn exec_sworld(w: &SWorld) -> SExec {
         consumers: 0,
         rebuilds: 0,
         sibling_steps: 0,
+        big_worlds: 0,
         sim_steps: 0,
         outcome_hash: 0,
     };
@@ -738,7 +797,11 @@ fn exec_sworld(w: &SWorld) -> SExec {
             }
         }
         // drain: "until Done" on both ends
-        if ex.viols.is_empty() {
+        if ex.viols.is_empty() && w.no_drain {
+            finish_searcher(w, &f, &fw, &bw, false, &mut ex.viols, w.script.len());
+            ex.big_worlds += 1;
+        }
+        if ex.viols.is_empty() && !w.no_drain {
             let bound = 4 * len + 12;
             let res = armed(ctx, &mut || {
                 let mut n = 0;
@@ -915,6 +978,7 @@ fn cmd_worker(args: &[String]) -> i32 {
         st.add("faults.fuel", e.inconclusive as u64);
         st.add("faults.rebuild", e.rebuilds as u64);
         st.add("faults.sibling_searcher_steps", e.sibling_steps as u64);
+        st.add("probes.big_haystack_world_conclusive", e.big_worlds as u64);
         st.add("compile_errors", e.compile_err as u64);
         st.add("ops.forward_steps", e.steps_fwd as u64);
         st.add("ops.backward_steps", e.steps_bwd as u64);
